@@ -13,10 +13,12 @@ mod repo {
 }
 pub use repo::{bus, cpu, elf, ioport, memory, modules, registers, setting, socket};
 
+mod asm;
 mod checks;
 mod gen;
 mod mon;
 mod refmodel;
+mod runrig;
 mod util;
 
 use std::time::Instant;
@@ -70,6 +72,12 @@ fn main() {
             }
             println!("{}", if any { "REPRODUCED" } else { "not reproduced" });
             std::process::exit(if any { 1 } else { 0 });
+        }
+        "c14child" => {
+            let seed: u64 = args.get(2).and_then(|s| s.parse().ok()).unwrap_or(1);
+            let groups: u64 = args.get(3).and_then(|s| s.parse().ok()).unwrap_or(1);
+            let out = args.get(4).cloned().unwrap_or_else(|| "/dev/null".into());
+            checks::syscall::child_main(seed, groups, &out);
         }
         "selftest" => {
             let mut rng = util::Rng::new(7);
